@@ -13,7 +13,7 @@ use quick_xml::{
     NsReader, Writer,
 };
 
-use super::{Candidate, Evaluate, Evaluated, Installed, Name, Policies, Ranges};
+use super::{Candidate, Evaluate, Evaluated, Fetch, Installed, Name, Policies, Ranges};
 
 const BASE: Namespace<'_> = Namespace(b"urn:ietf:params:xml:ns:netconf:base:1.0");
 
@@ -186,4 +186,69 @@ pub fn run_plan(
     let evaluated = candidates.evaluate(&mut evaluator);
     let payloads = render(&evaluated, &installed)?;
     Ok((describe(&evaluated), payloads))
+}
+
+async fn request<R, T>(
+    session: &mut netconf::Session<T>,
+) -> Result<impl std::future::Future<Output = Result<R, String>>, String>
+where
+    R: Fetch,
+    T: netconf::transport::Transport,
+{
+    use netconf::message::rpc::operation::{Builder as _, Filter, GetConfig};
+    // the request `Client::fetch_config` sends, on a caller-supplied session
+    let reply = session
+        .rpc::<GetConfig<R>, _>(|builder| {
+            builder
+                .source(R::DATASTORE)?
+                .filter(R::FILTER.map(|filter| Filter::Subtree(filter.to_string())))?
+                .finish()
+        })
+        .await
+        .map_err(|err| format!("{err:?}"))?;
+    Ok(async move { reply.await.map_err(|err| format!("{err:?}")) })
+}
+
+/// Send the agent's candidate `<get-config>` on `session`; the returned future resolves to the
+/// `(name, filter-expr)` pairs read from the reply by the library's and the agent's real readers.
+pub async fn request_candidates<T: netconf::transport::Transport>(
+    session: &mut netconf::Session<T>,
+) -> Result<impl std::future::Future<Output = Result<Vec<(String, String)>, String>>, String> {
+    let reply = request::<Policies<Candidate>, T>(session).await?;
+    Ok(async move {
+        let policies = reply.await?;
+        let mut out: Vec<_> = policies
+            .map
+            .iter()
+            .map(|(name, candidate)| (name.to_string(), candidate.filter_expr.to_string()))
+            .collect();
+        out.sort();
+        Ok(out)
+    })
+}
+
+/// Send the agent's installed-policies `<get-config>` on `session` (see [`request_candidates`]).
+pub async fn request_installed<T: netconf::transport::Transport>(
+    session: &mut netconf::Session<T>,
+) -> Result<
+    impl std::future::Future<Output = Result<Vec<(String, Vec<String>, Vec<String>)>, String>>,
+    String,
+> {
+    let reply = request::<Policies<Installed>, T>(session).await?;
+    Ok(async move {
+        let policies = reply.await?;
+        let mut out: Vec<_> = policies
+            .map
+            .iter()
+            .map(|(name, installed)| {
+                (
+                    name.to_string(),
+                    fmt_ranges(&installed.ipv4),
+                    fmt_ranges(&installed.ipv6),
+                )
+            })
+            .collect();
+        out.sort();
+        Ok(out)
+    })
 }
